@@ -396,6 +396,20 @@ func init() {
 				}
 			}
 		}
+		// exact ties at the bottom of the subnormal range, written out in full (5^1075 has 752 digits):
+		// the decimal path's rounding decision with no integer digits left of the rounding position
+		p5 := new(big.Int).Exp(big.NewInt(5), big.NewInt(1075), nil)
+		for _, k := range []int64{0, 1, 2} {
+			for _, dl := range []int64{-1, 0, 1} {
+				v := new(big.Int).Add(new(big.Int).Mul(p5, big.NewInt(2*k+1)), big.NewInt(dl))
+				digs := v.String()
+				for _, lit := range []string{digs + "e-1075", "-" + digs + "E-1075", "0." + strings.Repeat("0", 1075-len(digs)) + digs} {
+					e.emit("f64 %s", hs([]byte(lit)))
+					e.emit("dec f64 %s 1", hs([]byte(lit)))
+					e.emit("rv %s", hs([]byte("["+lit+"]")))
+				}
+			}
+		}
 		long := strings.Repeat("9", 20000)
 		for _, d := range []string{long, "-" + long + "." + long, "1e" + long, `"` + strings.Repeat("a", 20000) + `"`, `"` + strings.Repeat(`é`, 3000) + `"`,
 			strings.Repeat(" ", 20000) + "1", `"` + strings.Repeat(`😀`, 2000)} {
